@@ -221,3 +221,104 @@ def run(res, facts, tier):
     _run_c12_6(res, facts, tier)
     from . import c12_order
     c12_order.run_rule(res, facts, tier)
+
+
+# ----------------------------------------------------------------------------------------------- R8: the tree builders number nodes in document order
+BUILDERS = ('FormatterToSourceTree', 'XalanSourceTreeContentHandler')
+
+
+def r8_builder_order(res, facts):
+    """XalanSourceTreeDocument hands out the node index - what document order IS for a source tree, and what every ordered insert and every union compares - when a node is
+    CREATED.  Both builders (the parser's content handler and the result-tree-fragment builder) keep character data pending in a buffer and turn it into a text node
+    (processAccumulatedText) when the next event arrives.  That text node precedes whatever the event creates, so it has to be created first: every node-creating call of
+    an event handler must be dominated by the flush of the pending text."""
+    r = res.rule('C12-R8', 'source-tree builders number nodes in document order: in every event handler of FormatterToSourceTree and XalanSourceTreeContentHandler a call that creates a '
+                 'node (create*Node) is dominated by processAccumulatedText() - the pending text node precedes the new node, so it must get the smaller index', floor=8)
+    n = 0
+    for cls in BUILDERS:
+        fns = {}
+        for k in facts.astidx:
+            f = facts.F.get(k)
+            if f and short(f.get('cls') or '') == cls:
+                a = facts.ast(k)
+                if a is not None and a.get('body') is not None:
+                    fns[short(facts.name[k]).split('::')[-1]] = fns.get(short(facts.name[k]).split('::')[-1], []) + [(k, a)]
+        if 'processAccumulatedText' not in fns:
+            raise AnalysisBroken('%s::processAccumulatedText not found' % cls)
+        # needs[f]: the first node-creating call (direct, or through a helper of the class that needs the flush) reachable from the entry of f without passing the flush
+        needs = {}
+        info = {}
+        for nm, lst in fns.items():
+            for k, a in lst:
+                cfg = CFG(a)
+                flush = {nd.id for nd, c in common.find_call_nodes(cfg, 'processAccumulatedText')}
+                unflushed = cfg.reachable_avoiding([cfg.entry], lambda m2: m2.id in flush)
+                # where the builder is told not to accumulate text nothing can be pending: nodes under "m_accumulateText is false" need no flush
+                must = common.must_conds(cfg)
+                for nd in cfg.nodes:
+                    for at, br in must.get(nd.id, []):
+                        core, eff = common.norm_atom(at, br)
+                        if core is not None and core.get('k') == 'Member' and core.get('m') == 'm_accumulateText' and not eff:
+                            unflushed = set(unflushed) - {nd.id}
+                info[k] = (nm, a, cfg, unflushed)
+        changed = True
+        while changed:
+            changed = False
+            for k, (nm, a, cfg, unflushed) in info.items():
+                if k in needs or nm == 'processAccumulatedText':
+                    continue
+                for nd in cfg.nodes:
+                    if nd.ast is None or nd.kind not in ('stmt', 'cond') or nd.id not in unflushed:
+                        continue
+                    for c in calls(nd.ast):
+                        cn = c.get('n') or callee(c).split('::')[-1]
+                        on_document = 'XalanSourceTreeDocument' in (c.get('cls') or c.get('fn') or '')
+                        helper = [k2 for k2, a2 in fns.get(cn, []) if k2 in needs] if cn in fns and not on_document else []
+                        if (_is_create(c) and (on_document or cn not in fns)) or helper:
+                            needs[k] = (c, needs[helper[0]][1] if helper else cn)
+                            changed = True
+                            break
+                    if k in needs:
+                        break
+        called_by = collections.defaultdict(set)
+        for k, (nm, a, cfg, unflushed) in info.items():
+            for c in calls(a['body']):
+                cn = c.get('n') or callee(c).split('::')[-1]
+                if cn in fns and cn != nm:
+                    called_by[cn].add(nm)
+        for k, (nm, a, cfg, unflushed) in info.items():
+            creates = [c for c in calls(a['body']) if _is_create(c) or ((c.get('n') or '') in fns and any(k2 in needs for k2, _ in fns[c.get('n')]))]
+            if nm == 'createElementNode' or nm == 'createElement':
+                pass
+            if not creates or nm == 'processAccumulatedText':
+                continue
+            n += 1
+            site = '%s::%s' % (cls, nm)
+            callers = called_by.get(nm, set()) - {nm}
+            if k not in needs:
+                r.ok(site, 'every node it creates comes after the flush of the pending text')
+            elif callers and callers <= {'processAccumulatedText'}:
+                r.ok(site, 'part of the flush itself (called by processAccumulatedText only)')
+            elif callers:
+                r.ok(site, 'helper: its callers %s carry the obligation' % sorted(callers))
+            else:
+                c, what = needs[k]
+                r.violation(site, 'creates a node (%s) on a path that has not flushed the pending character data: the text node that precedes it in the tree is created afterwards and '
+                            'gets the larger index, so unions, ordered inserts and positional predicates see the two in the wrong order (and insert duplicates)' % what,
+                            common.file_line(a, c))
+    if n < 6:
+        raise AnalysisBroken('only %d node-creating functions found in the tree builders (floor 6)' % n)
+    return r
+
+
+def _is_create(c):
+    nm = c.get('n') or callee(c).split('::')[-1]
+    return bool(re.match(r'^create\w*Node$', nm or ''))
+
+
+_run_c12_7 = run
+
+
+def run(res, facts, tier):
+    _run_c12_7(res, facts, tier)
+    r8_builder_order(res, facts)
